@@ -33,8 +33,9 @@ def build(m, assign, targets, light=False):
     import anytree
     from .. import pickcls
 
-    ext = [anytree.Node("e0", data=["ext"]), None]
+    ext = [anytree.Node("e0", data=["ext"]), None, pickcls.PLight("le0", ["lext"]), pickcls.PLight("le1", None)]
     ext[1] = anytree.Node("e1", parent=ext[0])
+    ext[3].parent = ext[2]     # a second external tree, built on LightNodeMixin (a link may point at such a node, too)
     nodes = [None] * m.n
     labels = []
     order = [i for i in range(m.n) if assign[i] != "symlink"] + [i for i in range(m.n) if assign[i] == "symlink"]
@@ -46,6 +47,7 @@ def build(m, assign, targets, light=False):
             continue
         name = "n%d" % i
         data = ["d%d" % i, {"k": i}]
+        extra = {"size": 10 + i, "depth": "deep", "height": None, "is_leaf": 0, "path": "/x"} if i % 3 == 1 else {}
         if not light and i % 2 == 0:
             # the name (Node) / an attribute value is an object that refers back into the tree
             name = pickcls.PLabel(name)
@@ -56,9 +58,10 @@ def build(m, assign, targets, light=False):
         if light:
             nodes[i] = pickcls.PLight(name, data)
         elif assign[i] == "node":
-            nodes[i] = anytree.Node(name, data=data)
+            # (instance attributes named like read-only tree properties are legal: Node("f", size=10), imported data ...)
+            nodes[i] = anytree.Node(name, data=data, **extra)
         elif assign[i] == "anynode":
-            nodes[i] = anytree.AnyNode(id=name, data=data)
+            nodes[i] = anytree.AnyNode(id=name, data=data, **extra)
         elif assign[i] == "user":
             nodes[i] = pickcls.PUser(name, data)
         elif assign[i] == "slotextra":
@@ -231,7 +234,7 @@ def check_copy(m, nodes, ext, entry, cp):
                     if er is None:
                         why.append("external target copy has no root")
                     else:
-                        walk_pairs(ext[0], er, p2, w2)
+                        walk_pairs(root_of(tgt), er, p2, w2)
                         if w2:
                             why.append("external target tree of the copy is not isomorphic: %s" % w2[0])
                         else:
@@ -279,7 +282,7 @@ def check_case(t, shape, assign, targets, light, only=None):
     ops = mutation_ops(m.n)
     for entry in range(m.n):
         t.c["states"] += 1
-        for mname, meth in methods(light or "slotextra" in assign):
+        for mname, meth in methods(light or "slotextra" in assign or ("ext", 3) in targets.values()):
             if only and (entry, mname) != only:
                 continue
             cp = meth(nodes[entry])
@@ -401,7 +404,7 @@ def cases(n, max_links):
                 continue
             choices = []
             for i in links:
-                choices.append([("main", j) for j in range(n) if j != i] + [("ext", 1)])
+                choices.append([("main", j) for j in range(n) if j != i] + [("ext", 1), ("ext", 3)])
             for combo in itertools.product(*choices):
                 out.append((shape, assign, dict(zip(links, combo)), False))
         out.append((shape, ("light",) * n, {}, True))
